@@ -254,6 +254,53 @@ def _(c):
     c.ensures("commit-will-raise", "self._transaction_waiter.done() and self._transaction_waiter.exception() == exc")
     c.ensures("pending-offsets-failed", "len(self._pending_txn_offsets) == 0 and forall(lambda j: implies("
               "0 <= j < len(old(self._pending_txn_offsets)), old(self._pending_txn_offsets)[j][2].done()))")
+    # C07 "a read-committed reader sees ... none of a transaction that was aborted" / C16 "abort returns the producer to
+    # a state in which a new transaction succeeds": the abort that follows an abortable error has to send EndTxn(ABORT)
+    # whenever the coordinator has registered anything for this transaction - whether EndTxn is sent is decided from
+    # _txn_partitions / _txn_consumer_group (is_empty_transaction), so what the coordinator acknowledged must not be
+    # forgotten before the transaction is ended (complete_transaction forgets it then)
+    c.ensures("what-the-coordinator-registered-is-remembered-until-the-transaction-is-ended",
+              "self._txn_partitions == old(self._txn_partitions) and self._txn_consumer_group == old(self._txn_consumer_group)")
+
+    @c.replay
+    def replay(model, ob=None):
+        return {"script": _ERROR_TXN_SCRIPT}
+
+
+_ERROR_TXN_SCRIPT = '''
+import asyncio, logging
+logging.disable(logging.CRITICAL)
+from aiokafka.producer.transaction_manager import TransactionManager, TransactionState
+from aiokafka.structs import TopicPartition, OffsetAndMetadata
+from aiokafka import errors as Errors
+
+async def main():
+    bad = []
+    p0, p1 = TopicPartition("t", 0), TopicPartition("denied", 0)
+    for with_group in (False, True):
+        tm = TransactionManager("tid", 1000)
+        tm.set_pid_and_epoch(1, 0)
+        tm.begin_transaction()
+        tm.maybe_add_partition_to_txn(p0)
+        tm.partition_added(p0)                      # the coordinator acknowledged p0; records may have been written to it
+        if with_group:
+            fut = tm.add_offsets_to_txn({p0: OffsetAndMetadata(5, "")}, "g")
+            tm.consumer_group_added("g")
+        tm.maybe_add_partition_to_txn(p1)
+        tm.error_transaction(Errors.TopicAuthorizationFailedError("denied"))      # AddPartitionsToTxn refused p1
+        tm.aborting_transaction()                   # the application aborts
+        if tm.is_empty_transaction():
+            bad.append("after an abortable error the manager calls the transaction empty although the coordinator has "
+                       "registered %s for it: the abort completes without EndTxn(ABORT), the transaction stays open on the "
+                       "coordinator and the next transaction's commit publishes the aborted records"
+                       % ("partition t-0 and group g" if with_group else "partition t-0"))
+        for f in [tm._transaction_waiter] + ([fut] if with_group else []):
+            if f.done() and not f.cancelled():
+                f.exception()
+    return bad
+bad = asyncio.run(main())
+VIOLATED = bool(bad); DETAIL = repr(bad)
+'''
 
 
 @contract(MOD + ":TransactionManager.fatal_error", "C16")
